@@ -520,7 +520,13 @@ func ForeignHello(rg *rand.Rand, sni string) ([]byte, []string) {
 		suites = append(suites, 0x1301, 0x1302, 0x1303)
 	}
 	suites = append(suites, 0xc02b, 0xc02f, 0xc02c, 0xc030, 0xcca9, 0xcca8, 0xc013, 0xc014, 0x009c, 0x009d, 0x002f, 0x0035)
-	body := be16(0x0303)
+	legacy := uint16(0x0303)
+	if !tls13 && maybe(40) {
+		// an older stack: legacy_version TLS 1.1 / 1.0 (no supported_versions extension)
+		legacy = []uint16{0x0302, 0x0301}[rg.Intn(2)]
+		kinds = append(kinds, fmt.Sprintf("legacy_version_%04x", legacy))
+	}
+	body := be16(legacy)
 	body = append(body, randBytes(rg, 32)...)
 	body = append(body, vec8(randBytes(rg, 32))...)
 	body = append(body, vec16(u16s(suites...))...)
